@@ -5,9 +5,28 @@ import Mathlib.Tactic.NormNum
 /-
 Backward-error analysis of the factorisations and of `solve` in the standard model of floating-point
 arithmetic (Higham, ASNA 2nd ed., Thms 9.3, 9.4, 10.3, 10.4), for the *same* model terms
-(`Cv.LA.cholesky`, `Cv.LA.lu`, `Cv.LA.choleskySolve`, `Cv.LA.luSolve`) that are tied bit for bit to the
-Rust code at `Float`, instantiated at the scalar type `Fl M` (reals with an abstract rounding obeying
-`fl(x) = x(1+δ)`, `|δ| ≤ u`, and a square root of relative error `≤ u`: class `FlSqrt`).
+(`Cv.LA.cholesky`, `Cv.LA.lu`, `Cv.LA.choleskySolve`, `Cv.LA.luSolve`, `Cv.LA.solve`) that are tied bit
+for bit to the Rust code at `Float`, instantiated at the scalar type `Fl M` (reals with an abstract
+rounding obeying `fl(x) = x(1+δ)`, `|δ| ≤ u`; comparisons, `abs` and `==` exact; a square root of relative
+error `≤ u`: class `FlSqrt`, e.g. the correctly rounded `FlSqrt.ofRnd`).
+
+TRUSTED LINK (stated, not proved): IEEE-754 binary64 round-to-nearest arithmetic and `sqrt` satisfy the
+standard model with `u = 2⁻⁵³` as long as no operation overflows or underflows (Higham Thm 2.2), and
+round-to-nearest is monotone with `fl(±1) = ±1` (`MonoUnit`, only used by the norm-wise corollary).
+
+Headline theorems (`ev n l i j` = real value of entry `(i,j)`; `Lv`/`Uv` = unit lower / upper triangular
+part of the packed LU factor):
+* `cholesky_backward_error` (+ `_symm`): `L̂L̂ᵀ = A + ΔA`, `|ΔA| ≤ γ_{n+1}|L̂||L̂ᵀ|` (`n ≥ 2`; the constant
+  proved underneath is `γ_{max n 3}`, `FactorRounding.cholLoops_backward_error`)
+* `lu_backward_error`: `L̂Û = PA + ΔA`, `|ΔA| ≤ γ_n|L̂||Û|`, `piv` a permutation (no zero pivot)
+* `choleskyRoute_backward_error` (`γ_{3n+1}`, sharp form `γ_{cholK n}`), `luRoute_backward_error`
+  (`γ_{3n}`): the computed solution solves `(A + ΔA)x̂ = b`; `choleskyRoute_residual`, `luRoute_residual`
+* `lu_multipliers_le_one_rounded`, `luRoute_backward_error_norm`: `|l̂_ij| ≤ 1` and
+  `‖ΔA‖∞ ≤ γ_{3n}·n·‖Û‖∞` under monotone rounding
+* `solve_routes`, `solve_backward_error`: the statement for `solve a b` itself (both routes)
+* `f64_note`: `γ_{3n} ≤ γ_{3n+1} ≤ 1.1·10⁻¹⁴` for `n ≤ 32` at `u = 2⁻⁵³`
+Non-vacuity: `namespace Examples` (2 × 2 runs of `cholesky`, `lu`, `solve` in a model where every
+operation is 1 % off, and in a monotone model; computed factors differ from the exact ones).
 -/
 set_option linter.unusedSectionVars false
 set_option linter.unusedVariables false
@@ -390,5 +409,336 @@ theorem f64_note (M : FlModel) (hu : M.u = 1 / 2 ^ 53) (n : Nat) (hn : n ≤ 32)
     rw [hu]
     norm_num
   exact ⟨hlt, le_trans (M.γ_mono (by omega) h97) h97γ, le_trans (M.γ_mono hle h97) h97γ⟩
+
+/-! ### Non-vacuity: concrete runs in models where rounding errors occur -/
+
+namespace Examples
+
+/-- every operation (and `sqrt`) overestimates by 1 % (`δ = u = 0.01` always) -/
+noncomputable abbrev Minf : FlModel := FlModel.inflate (1 / 100) (by norm_num) (by norm_num)
+theorem Minf_u : Minf.u = 1 / 100 := rfl
+theorem Minf_rnd (x : ℝ) : Minf.rnd x = x * (1 + 1 / 100) := rfl
+
+noncomputable instance : FlSqrt Minf where
+  sqrtR := fun x => Real.sqrt x * (1 + 1 / 100)
+  sqrt_std := fun x _ => ⟨1 / 100, by rw [Minf_u, abs_of_nonneg (by norm_num)], rfl⟩
+
+theorem sqrtR_def (x : ℝ) : FlSqrt.sqrtR (M := Minf) x = Real.sqrt x * (1 + 1 / 100) := rfl
+
+theorem sqrt4 : Real.sqrt 4 = 2 := by
+  rw [show (4 : ℝ) = 2 ^ 2 by norm_num, Real.sqrt_sq (by norm_num)]
+
+section eval
+variable {M : FlModel}
+theorem mk_add (a b : ℝ) : (⟨a⟩ : Fl M) + ⟨b⟩ = ⟨M.rnd (a + b)⟩ := rfl
+theorem mk_sub (a b : ℝ) : (⟨a⟩ : Fl M) - ⟨b⟩ = ⟨M.rnd (a - b)⟩ := rfl
+theorem mk_mul (a b : ℝ) : (⟨a⟩ : Fl M) * ⟨b⟩ = ⟨M.rnd (a * b)⟩ := rfl
+theorem mk_div (a b : ℝ) : (⟨a⟩ : Fl M) / ⟨b⟩ = ⟨M.rnd (a / b)⟩ := rfl
+theorem mk_sub_zero (a : ℝ) : (⟨a⟩ : Fl M) - 0 = ⟨M.rnd (a - 0)⟩ := rfl
+theorem zero_add_mk (a : ℝ) : (0 : Fl M) + ⟨a⟩ = ⟨M.rnd (0 + a)⟩ := rfl
+theorem mk_eq_zero (a : ℝ) : (⟨a⟩ : Fl M) = 0 ↔ a = 0 := Fl.eq_zero_iff _
+theorem mk_abs [FlSqrt M] (a : ℝ) : Transc.abs (⟨a⟩ : Fl M) = ⟨|a|⟩ := rfl
+theorem mk_lt (a b : ℝ) : (⟨a⟩ : Fl M) < ⟨b⟩ ↔ a < b := Iff.rfl
+end eval
+
+/-- a symmetric positive definite 2 × 2 matrix -/
+noncomputable abbrev A2 : List (Fl Minf) := [⟨400 / 101⟩, ⟨2⟩, ⟨2⟩, ⟨5⟩]
+
+theorem A2_symm : Symm 2 A2 := by
+  intro i j hi hj
+  have h1 : i = 0 ∨ i = 1 := by omega
+  have h2 : j = 0 ∨ j = 1 := by omega
+  rcases h1 with rfl | rfl <;> rcases h2 with rfl | rfl <;> simp [ev, rd]
+
+/-- `cholesky` succeeds on `A2` in the 1 % model; the computed factor has `l₀₀ = 2.02`, `l₁₀ = 1.01` (the
+exact factor has `l₀₀ = 20/√101 ≈ 1.99`, `l₁₀ = √101/10 ≈ 1.005`) -/
+theorem A2_chol : ∃ l, cholesky A2 = some l ∧ ev 2 l 0 0 = 101 / 50 ∧ ev 2 l 1 0 = 101 / 100 := by
+  have hE : ¬ (4503599627370496 : Fl Minf).val < 0 := by
+    show ¬ Minf.rnd ((4503599627370496 : ℕ) : ℝ) < 0
+    rw [Minf_rnd]; norm_num
+  unfold cholesky tryCholesky isSymmetric
+  simp only [show A2.length = 2 * 2 from rfl, isSquare_sq]
+  norm_num [cholLoops, cholRow, List.range_succ, List.foldlM_cons, List.foldlM_nil, cholCell, List.replicate,
+    Fl.isNan_false, Fl.le_def, Fl.lt_def, rd, dot8, dot8Go, Minf_rnd, List.set, List.take, List.drop,
+    sqrtR_def, sqrt4, eps, List.range', ev, hE]
+
+/-- **`cholesky_backward_error` on a concrete run**: the hypotheses hold, the computed factor is not the
+exact one (`(L̂L̂ᵀ)₀₀ ≠ a₀₀`), and the backward error is within the proved bound. -/
+example : ∃ l, cholesky A2 = some l ∧
+    ∑ k ∈ range 2, ev 2 l 0 k * ev 2 l 0 k - ev 2 A2 0 0 ≠ 0 ∧
+    ∀ i j, j ≤ i → i < 2 →
+      |∑ k ∈ range 2, ev 2 l i k * ev 2 l j k - ev 2 A2 i j| ≤
+        Minf.γ (2 + 1) * ∑ k ∈ range 2, |ev 2 l i k| * |ev 2 l j k| := by
+  obtain ⟨l, hl, h00, h10⟩ := A2_chol
+  obtain ⟨_, hup, _, hb⟩ := cholesky_backward_error A2 l 2 rfl (le_refl 2) hl (by rw [Minf_u]; norm_num)
+  refine ⟨l, hl, ?_, hb⟩
+  have h01 : ev 2 l 0 1 = 0 := hup 0 1 (by omega) (by omega) (by omega)
+  simp only [Finset.sum_range_succ, Finset.sum_range_zero, h00, h01]
+  norm_num [ev, rd]
+
+/-- `cholesky_solve` never fails on a square factor and a right-hand side of matching length -/
+theorem choleskySolve_isSome {M : FlModel} (l b : List (Fl M)) (n : Nat) (hn : n ≠ 0)
+    (hl : l.length = n * n) (hb : b.length = n) : ∃ x, choleskySolve l b = some x := by
+  obtain ⟨lt, hlt⟩ := transpose_sq_some l n hn hl
+  obtain ⟨hltl, _⟩ := transpose_sq_entry l lt n hl hlt
+  unfold choleskySolve
+  simp only [hl, isSquare_sq, hb, Option.bind_eq_bind, Option.bind_some, ne_eq, not_true_eq_false,
+    if_false]
+  unfold forwardSubstitution
+  simp only [hl, isSquare_sq, hb, Option.bind_eq_bind, Option.bind_some, ne_eq, not_true_eq_false,
+    if_false, Option.pure_def, hlt]
+  unfold backwardSubstitution
+  have hyl : ((List.range n).foldl (fun x i =>
+      x ++ [(rd b i - dot8 ((l.drop (i * n)).take i) x) / rd l (i * n + i)]) []).length = n :=
+    (build_append (fun i x => (rd b i - dot8 ((l.drop (i * n)).take i) x) / rd l (i * n + i)) n).1
+  simp only [hltl, isSquare_sq, hyl, Option.bind_eq_bind, Option.bind_some, ne_eq, not_true_eq_false,
+    if_false, Option.pure_def]
+  exact ⟨_, rfl⟩
+
+/-- **the Cholesky route on a concrete run**: `(A + ΔA)x̂ = b`, `|ΔA| ≤ γ₇|L̂||L̂ᵀ|` (`3n+1 = 7`) -/
+example : ∃ l x, cholesky A2 = some l ∧ choleskySolve l [⟨1⟩, ⟨1⟩] = some x ∧ x.length = 2 ∧
+    ∃ ΔA : Nat → Nat → ℝ,
+      (∀ i m, i < 2 → m < 2 →
+        |ΔA i m| ≤ Minf.γ (3 * 2 + 1) * ∑ j ∈ range 2, |ev 2 l i j| * |ev 2 l m j|) ∧
+      ∀ i, i < 2 → ∑ m ∈ range 2, (ev 2 A2 i m + ΔA i m) * (rd x m).val =
+        (rd ([⟨1⟩, ⟨1⟩] : List (Fl Minf)) i).val := by
+  obtain ⟨l, hl, _, _⟩ := A2_chol
+  have hll := (cholesky_backward_error A2 l 2 rfl (le_refl 2) hl (by rw [Minf_u]; norm_num)).1
+  obtain ⟨x, hx⟩ := choleskySolve_isSome l [⟨1⟩, ⟨1⟩] 2 (by norm_num) hll rfl
+  obtain ⟨h1, h2⟩ := choleskyRoute_backward_error A2 l [⟨1⟩, ⟨1⟩] x 2 rfl (le_refl 2) hl A2_symm hx
+    (by rw [Minf_u]; norm_num)
+  exact ⟨l, x, hl, hx, h1, h2⟩
+
+/-- a 2 × 2 matrix whose LU factorisation exchanges the rows -/
+noncomputable abbrev A3 : List (Fl Minf) := [⟨1⟩, ⟨2⟩, ⟨3⟩, ⟨4⟩]
+/-- its computed packed factor in the 1 % model (the exact one is `[3, 4, 1/3, 2/3]`) -/
+noncomputable abbrev F3 : List (Fl Minf) :=
+  [⟨303 / 100⟩, ⟨101 / 25⟩, ⟨101 / 300⟩, ⟨4639899499 / 7500000000⟩]
+
+theorem A3_step0 : luStep 2 (A3, [0, 1]) 0 = ([⟨303 / 100⟩, ⟨4⟩, ⟨101 / 300⟩, ⟨2⟩], [1, 0]) := by
+  have hc : luColumn 2 0 A3 = [⟨101 / 100⟩, ⟨2⟩, ⟨303 / 100⟩, ⟨4⟩] := by
+    norm_num [luColumn, luDot, List.range_succ, rd, Minf_rnd, List.set, mk_sub_zero]
+  have hp : luPivot 2 0 ([⟨101 / 100⟩, ⟨2⟩, ⟨303 / 100⟩, ⟨4⟩] : List (Fl Minf)) = 1 := by
+    norm_num [luPivot, List.range', rd, mk_abs, mk_lt]
+  have hs : swapRows 2 1 0 ([⟨101 / 100⟩, ⟨2⟩, ⟨303 / 100⟩, ⟨4⟩] : List (Fl Minf)) =
+      [⟨303 / 100⟩, ⟨4⟩, ⟨101 / 100⟩, ⟨2⟩] := rfl
+  have hsc : luScale 2 0 ([⟨303 / 100⟩, ⟨4⟩, ⟨101 / 100⟩, ⟨2⟩] : List (Fl Minf)) =
+      [⟨303 / 100⟩, ⟨4⟩, ⟨101 / 300⟩, ⟨2⟩] := by
+    norm_num [luScale, List.range', rd, mk_div, mk_eq_zero, Minf_rnd, List.set]
+  simp [luStep, hc, hp, hs, hsc, swapIdx]
+
+theorem A3_step1 : luStep 2 ([⟨303 / 100⟩, ⟨4⟩, ⟨101 / 300⟩, ⟨2⟩], [1, 0]) 1 = (F3, [1, 0]) := by
+  have hc : luColumn 2 1 ([⟨303 / 100⟩, ⟨4⟩, ⟨101 / 300⟩, ⟨2⟩] : List (Fl Minf)) = F3 := by
+    norm_num [luColumn, luDot, List.range_succ, rd, Minf_rnd, List.set, mk_sub_zero, mk_sub, mk_mul,
+      zero_add_mk]
+  have hp : luPivot 2 1 F3 = 1 := by
+    norm_num [luPivot, List.range']
+  have hsc : luScale 2 1 F3 = F3 := by
+    norm_num [luScale, List.range']
+  simp [luStep, hc, hp, hsc]
+
+/-- `lu` on `A3` in the 1 % model: rows exchanged, multiplier `0.33666…` instead of `1/3` -/
+theorem A3_lu : lu A3 = some (F3, [1, 0]) := by
+  unfold lu
+  simp only [show A3.length = 2 * 2 from rfl, isSquare_sq]
+  show some (luStep 2 (luStep 2 (A3, [0, 1]) 0) 1) = _
+  rw [A3_step0, A3_step1]
+
+theorem F3_pivots : ∀ k, k < 2 → ev 2 F3 k k ≠ 0 := by
+  intro k hk
+  have h : k = 0 ∨ k = 1 := by omega
+  rcases h with rfl | rfl <;> norm_num [ev, rd]
+
+/-- **`lu_backward_error` on a concrete run**: hypotheses hold, the computed multiplier differs from
+the exact `1/3`, the product `L̂Û` differs from `P·A`, and the bound holds. -/
+example : lu A3 = some (F3, [1, 0]) ∧ Lv 2 F3 1 0 = 101 / 300 ∧
+    ∑ k ∈ range 2, Lv 2 F3 0 k * Uv 2 F3 k 0 - ev 2 A3 1 0 ≠ 0 ∧
+    ∀ i c, i < 2 → c < 2 →
+      |∑ k ∈ range 2, Lv 2 F3 i k * Uv 2 F3 k c - ev 2 A3 (([1, 0] : List Nat).getD i 0) c| ≤
+        Minf.γ 2 * ∑ k ∈ range 2, |Lv 2 F3 i k| * |Uv 2 F3 k c| := by
+  refine ⟨A3_lu, ?_, ?_, (lu_backward_error A3 F3 [1, 0] 2 rfl A3_lu F3_pivots
+    (by rw [Minf_u]; norm_num)).2.2⟩
+  · norm_num [Lv, ev, rd]
+  · simp only [Finset.sum_range_succ, Finset.sum_range_zero]
+    norm_num [Lv, Uv, ev, rd]
+
+/-- **the LU route on a concrete run**: `(PA + ΔA)x̂ = Pb`, `|ΔA| ≤ γ₆|L̂||Û|`, and the residual bound -/
+example : ∃ x, luSolve F3 [1, 0] [⟨1⟩, ⟨1⟩] = some x ∧ x.length = 2 ∧
+    (∃ ΔA : Nat → Nat → ℝ,
+      (∀ i m, i < 2 → m < 2 →
+        |ΔA i m| ≤ Minf.γ (3 * 2) * ∑ j ∈ range 2, |Lv 2 F3 i j| * |Uv 2 F3 j m|) ∧
+      ∀ i, i < 2 → ∑ m ∈ range 2, (ev 2 A3 (([1, 0] : List Nat).getD i 0) m + ΔA i m) * (rd x m).val =
+        (rd ([⟨1⟩, ⟨1⟩] : List (Fl Minf)) (([1, 0] : List Nat).getD i 0)).val) ∧
+    ∀ i, i < 2 →
+      |(rd ([⟨1⟩, ⟨1⟩] : List (Fl Minf)) (([1, 0] : List Nat).getD i 0)).val -
+          ∑ m ∈ range 2, ev 2 A3 (([1, 0] : List Nat).getD i 0) m * (rd x m).val| ≤
+        Minf.γ (3 * 2) *
+          ∑ m ∈ range 2, (∑ j ∈ range 2, |Lv 2 F3 i j| * |Uv 2 F3 j m|) * |(rd x m).val| := by
+  refine ⟨_, rfl, ?_⟩
+  have hu : ((3 * 2 : Nat) : ℝ) * Minf.u < 1 := by rw [Minf_u]; norm_num
+  obtain ⟨h1, _, h2⟩ := luRoute_backward_error A3 F3 [⟨1⟩, ⟨1⟩] _ [1, 0] 2 rfl rfl A3_lu F3_pivots rfl hu
+  exact ⟨h1, h2, luRoute_residual A3 F3 [⟨1⟩, ⟨1⟩] _ [1, 0] 2 rfl rfl A3_lu F3_pivots rfl hu⟩
+
+theorem bigE : (4503599627370496 : Fl Minf).val = 4503599627370496 * (1 + 1 / 100) := by
+  show Minf.rnd ((4503599627370496 : ℕ) : ℝ) = _
+  rw [Minf_rnd]; norm_num
+
+theorem A3_route : route A3 = some none := by
+  unfold route routePredicate isPositiveDefinite isSymmetric
+  simp only [show A3.length = 2 * 2 from rfl, isSquare_sq]
+  norm_num [List.range_succ, List.range', rd, eps, Fl.lt_def, Minf_rnd, bigE]
+
+theorem A3_solve : ∃ x, solve A3 [⟨1⟩, ⟨1⟩] = some x := by
+  unfold solve
+  simp only [show A3.length = 2 * 2 from rfl]
+  simp [A3_route, solveWith, A3_lu, luSolve, luPermute]
+
+theorem A2_pred : routePredicate A2 = some true := by
+  unfold routePredicate isPositiveDefinite isSymmetric isExactlySymmetric
+  simp only [show A2.length = 2 * 2 from rfl, isSquare_sq]
+  norm_num [List.range_succ, List.range', rd, eps, Fl.lt_def, Fl.le_def, Minf_rnd, bigE]
+
+theorem A2_solve : ∃ x, solve A2 [⟨1⟩, ⟨1⟩] = some x := by
+  obtain ⟨l, hl, _, _⟩ := A2_chol
+  have ht : tryCholesky A2 = some (some l) := by
+    unfold cholesky at hl
+    exact Option.join_eq_some_iff.mp hl
+  have hll := (cholesky_backward_error A2 l 2 rfl (le_refl 2) hl (by rw [Minf_u]; norm_num)).1
+  obtain ⟨x, hx⟩ := choleskySolve_isSome l [⟨1⟩, ⟨1⟩] 2 (by norm_num) hll rfl
+  refine ⟨x, ?_⟩
+  unfold solve
+  simp only [show A2.length = 2 * 2 from rfl]
+  simp [route, A2_pred, ht, solveWith, hx]
+
+/-- **`solve_backward_error` on concrete runs**: `solve` succeeds on both routes in the 1 % model -/
+example : ∃ x, solve A3 [⟨1⟩, ⟨1⟩] = some x ∧
+    ∃ f piv, lu A3 = some (f, piv) ∧ ((∀ k, k < 2 → ev 2 f k k ≠ 0) →
+      x.length = 2 ∧ piv.Perm (List.range 2) ∧ ∃ ΔA : Nat → Nat → ℝ,
+      (∀ i m, i < 2 → m < 2 →
+        |ΔA i m| ≤ Minf.γ (3 * 2) * ∑ j ∈ range 2, |Lv 2 f i j| * |Uv 2 f j m|) ∧
+      ∀ i, i < 2 → ∑ m ∈ range 2, (ev 2 A3 (piv.getD i 0) m + ΔA i m) * (rd x m).val =
+        (rd ([⟨1⟩, ⟨1⟩] : List (Fl Minf)) (piv.getD i 0)).val) := by
+  obtain ⟨x, hx⟩ := A3_solve
+  refine ⟨x, hx, ?_⟩
+  obtain ⟨_, h⟩ := solve_backward_error A3 [⟨1⟩, ⟨1⟩] x 2 rfl (le_refl 2) hx (by rw [Minf_u]; norm_num)
+  rcases h with ⟨l, hc, hsym, _⟩ | h
+  · exfalso
+    have := hsym 0 1 (by omega) (by omega)
+    norm_num [ev, rd] at this
+  · exact h
+
+/-- … and on the Cholesky route (`A2` is exactly symmetric with positive diagonal: `A2_pred`) the
+hypotheses of `solve_backward_error` hold as well -/
+example : ∃ x, solve A2 [⟨1⟩, ⟨1⟩] = some x ∧ routePredicate A2 = some true ∧
+    ([⟨1⟩, ⟨1⟩] : List (Fl Minf)).length = 2 := by
+  obtain ⟨x, hx⟩ := A2_solve
+  exact ⟨x, hx, A2_pred,
+    (solve_backward_error A2 [⟨1⟩, ⟨1⟩] x 2 rfl (le_refl 2) hx (by rw [Minf_u]; norm_num)).1⟩
+
+/-- a non-trivial *monotone* model: numbers in `[-1, 1]` are on the grid, everything else is inflated -/
+noncomputable def outside (c : ℝ) (h0 : 0 ≤ c) (h1 : c < 1) : FlModel where
+  rnd := fun x => if |x| ≤ 1 then x else x * (1 + c)
+  u := c
+  u_nonneg := h0
+  u_lt_one := h1
+  std := fun x => by
+    by_cases hx : |x| ≤ 1
+    · exact ⟨0, by simpa using h0, by simp [hx]⟩
+    · exact ⟨c, by rw [abs_of_nonneg h0], by simp [hx]⟩
+
+theorem outside_monoUnit (c : ℝ) (h0 : 0 ≤ c) (h1 : c < 1) : MonoUnit (outside c h0 h1) := by
+  refine ⟨?_, ?_, ?_⟩
+  · intro x y hxy
+    show (if |x| ≤ 1 then x else x * (1 + c)) ≤ (if |y| ≤ 1 then y else y * (1 + c))
+    by_cases hx : |x| ≤ 1 <;> by_cases hy : |y| ≤ 1
+    · simp only [hx, hy, if_true]; exact hxy
+    · simp only [hx, hy, if_true, if_false]
+      have := abs_le.mp hx
+      have hy1 : 1 < y := by
+        rcases lt_abs.mp (not_le.mp hy) with h | h
+        · exact h
+        · linarith
+      nlinarith
+    · simp only [hx, hy, if_true, if_false]
+      have := abs_le.mp hy
+      have hx1 : x < -1 := by
+        rcases lt_abs.mp (not_le.mp hx) with h | h
+        · linarith
+        · linarith
+      nlinarith
+    · simp only [hx, hy, if_false]
+      exact mul_le_mul_of_nonneg_right hxy (by linarith)
+  · show (if |(1 : ℝ)| ≤ 1 then (1 : ℝ) else 1 * (1 + c)) = 1
+    simp
+  · show (if |(-1 : ℝ)| ≤ 1 then (-1 : ℝ) else -1 * (1 + c)) = -1
+    simp
+
+noncomputable abbrev Mout : FlModel := outside (1 / 100) (by norm_num) (by norm_num)
+theorem Mout_u : Mout.u = 1 / 100 := rfl
+theorem Mout_rnd (x : ℝ) : Mout.rnd x = if |x| ≤ 1 then x else x * (1 + 1 / 100) := rfl
+noncomputable instance : FlSqrt Mout := FlSqrt.ofRnd Mout
+
+noncomputable abbrev A4 : List (Fl Mout) := [⟨1⟩, ⟨2⟩, ⟨3⟩, ⟨4⟩]
+noncomputable abbrev F4 : List (Fl Mout) := [⟨303 / 100⟩, ⟨101 / 25⟩, ⟨100 / 303⟩, ⟨4799 / 7500⟩]
+
+theorem A4_step0 : luStep 2 (A4, [0, 1]) 0 = ([⟨303 / 100⟩, ⟨4⟩, ⟨100 / 303⟩, ⟨2⟩], [1, 0]) := by
+  have hc : luColumn 2 0 A4 = [⟨1⟩, ⟨2⟩, ⟨303 / 100⟩, ⟨4⟩] := by
+    norm_num [luColumn, luDot, List.range_succ, rd, Mout_rnd, List.set, mk_sub_zero, abs_le]
+  have hp : luPivot 2 0 ([⟨1⟩, ⟨2⟩, ⟨303 / 100⟩, ⟨4⟩] : List (Fl Mout)) = 1 := by
+    norm_num [luPivot, List.range', rd, mk_abs, mk_lt]
+  have hs : swapRows 2 1 0 ([⟨1⟩, ⟨2⟩, ⟨303 / 100⟩, ⟨4⟩] : List (Fl Mout)) =
+      [⟨303 / 100⟩, ⟨4⟩, ⟨1⟩, ⟨2⟩] := rfl
+  have hsc : luScale 2 0 ([⟨303 / 100⟩, ⟨4⟩, ⟨1⟩, ⟨2⟩] : List (Fl Mout)) =
+      [⟨303 / 100⟩, ⟨4⟩, ⟨100 / 303⟩, ⟨2⟩] := by
+    norm_num [luScale, List.range', rd, mk_div, mk_eq_zero, Mout_rnd, List.set, abs_le]
+  simp [luStep, hc, hp, hs, hsc, swapIdx]
+
+theorem A4_step1 : luStep 2 ([⟨303 / 100⟩, ⟨4⟩, ⟨100 / 303⟩, ⟨2⟩], [1, 0]) 1 = (F4, [1, 0]) := by
+  have hc : luColumn 2 1 ([⟨303 / 100⟩, ⟨4⟩, ⟨100 / 303⟩, ⟨2⟩] : List (Fl Mout)) = F4 := by
+    norm_num [luColumn, luDot, List.range_succ, rd, Mout_rnd, List.set, mk_sub_zero, mk_sub, mk_mul,
+      zero_add_mk, abs_le]
+  have hp : luPivot 2 1 F4 = 1 := by
+    norm_num [luPivot, List.range']
+  have hsc : luScale 2 1 F4 = F4 := by
+    norm_num [luScale, List.range']
+  simp [luStep, hc, hp, hsc]
+
+theorem A4_lu : lu A4 = some (F4, [1, 0]) := by
+  unfold lu
+  simp only [show A4.length = 2 * 2 from rfl, isSquare_sq]
+  show some (luStep 2 (luStep 2 (A4, [0, 1]) 0) 1) = _
+  rw [A4_step0, A4_step1]
+
+theorem F4_pivots : ∀ k, k < 2 → ev 2 F4 k k ≠ 0 := by
+  intro k hk
+  have h : k = 0 ∨ k = 1 := by omega
+  rcases h with rfl | rfl <;> norm_num [ev, rd]
+
+/-- **monotone rounding on a concrete run**: in `Mout` rounding errors occur (`Û₁₁ = 0.63986…`, exact
+`2/3`), the multipliers are bounded by one, and the norm-wise backward-error bound
+`Σ_m |ΔA[i,m]| ≤ γ₆·2·‖Û‖∞`, `‖Û‖∞ = 7.07`, holds for the computed solution. -/
+example : lu A4 = some (F4, [1, 0]) ∧ Uv 2 F4 1 1 = 4799 / 7500 ∧
+    (∀ i k, i < 2 → k < 2 → |Lv 2 F4 i k| ≤ 1) ∧
+    ∃ x, luSolve F4 [1, 0] [⟨1⟩, ⟨1⟩] = some x ∧ ∃ ΔA : Nat → Nat → ℝ,
+      (∀ i, i < 2 → ∑ m ∈ range 2, |ΔA i m| ≤ Mout.γ (3 * 2) * ((2 : Nat) * (707 / 100))) ∧
+      ∀ i, i < 2 → ∑ m ∈ range 2, (ev 2 A4 (([1, 0] : List Nat).getD i 0) m + ΔA i m) * (rd x m).val =
+        (rd ([⟨1⟩, ⟨1⟩] : List (Fl Mout)) (([1, 0] : List Nat).getD i 0)).val := by
+  have hm := outside_monoUnit (1 / 100) (by norm_num) (by norm_num)
+  refine ⟨A4_lu, by norm_num [Uv, ev, rd], lu_multipliers_le_one_rounded hm A4 F4 [1, 0] 2 rfl A4_lu,
+    _, rfl, ?_⟩
+  refine luRoute_backward_error_norm hm A4 F4 [⟨1⟩, ⟨1⟩] _ [1, 0] 2 rfl rfl A4_lu F4_pivots rfl
+    (by rw [Mout_u]; norm_num) (707 / 100) ?_
+  intro j hj
+  have h : j = 0 ∨ j = 1 := by omega
+  rcases h with rfl | rfl <;>
+    (simp only [Finset.sum_range_succ, Finset.sum_range_zero]; norm_num [Uv, ev, rd])
+
+/-- the `f64` note is about a satisfiable hypothesis: a model with `u = 2⁻⁵³` exists, and at `n = 32` the
+constant of `solve` is below `1.1·10⁻¹⁴` -/
+example : ∃ M : FlModel, M.u = 1 / 2 ^ 53 ∧ M.γ (3 * 32) ≤ 1.1e-14 :=
+  ⟨FlModel.inflate (1 / 2 ^ 53) (by norm_num) (by norm_num), rfl,
+    (f64_note _ rfl 32 (le_refl 32)).2.1⟩
+
+end Examples
 
 end Cv.RoundingLU
